@@ -58,8 +58,10 @@ CLAIMED = {
             "The native cvxpy problem is probed independently of PEPit's translation code (variables set to zero / basis "
             "elements) and compared row by row, sense by sense, by TLC with the normal forms read from the DSL objects; what "
             "the user declared is recorded at declaration time (class-level wrappers of the public API) and must be sent as "
-            "often as declared with the entries as written; every third program is also formulated through the real "
-            "MosekWrapper on the stand-in (sparse encoding).",
+            "often as declared with the entries as written; the orthogonality of every pair of different blocks handed out by "
+            "a partition must be among the sent equalities; every recorded solve is validated call by call against the "
+            "protocol machine spec/Solve.tla (plan order, everything sent before the problem is generated); every third "
+            "program is also formulated through the real MosekWrapper on the stand-in (sparse encoding).",
             "TLC 1.8; cvxpy expression evaluation used for probing; MOSEK-side encoding is covered by C11 on a stand-in.",
             "6.5"),
     "C08": ("TLC model checking of spec/Steps.tla (documented post-conditions of the 8 primitive steps, all options) + replay "
@@ -89,10 +91,13 @@ CLAIMED = {
     "C12": ("TLC model checking of spec/Registry.tla (every class-level registry, NewPEP reset, 'forgotten registry' switches) "
             "+ TLC-enumerated histories of model fragments run in one process before model B + TLC trace validation against B "
             "in a fresh interpreter (RegistryTrace.tla)",
-            "Histories of up to 2-3 fragments out of 12 (solved, failed, abandoned, verbose, heuristic, referenced models) "
-            "followed by each of 6 models are enumerated by TLC and run; the registry snapshot right after PEP() (reflection "
+            "Histories of up to 2-3 fragments out of 16 (solved, failed, abandoned, verbose, heuristic, referenced models, "
+            "earlier models released or garbage collected while the next one is built) followed by each of 11 models (two "
+            "without finite value) are enumerated by TLC and run; the registry snapshot right after PEP() (reflection "
             "over all class attributes), the SHA-256 of the conic data and of the symbolic rows, and the value must equal "
-            "those of the same model in a fresh interpreter, bit for bit.",
+            "those of the same model in a fresh interpreter, bit for bit, and outcome and solver input must not depend on the "
+            "verbosity. The integrated machine spec/PEPit.tla (every public call with its effect on the registries) is model "
+            "checked and its behaviours are replayed with every registry compared after every call (reported as drift).",
             "TLC 1.8; cvxpy get_problem_data as solver input; PYTHONHASHSEED=0.",
             "6.12"),
     "C13": ("TLC model checking of spec/Pep.tla (epochs, caches, accumulation switches) + real solve/edit/evaluate sequences "
@@ -104,16 +109,19 @@ CLAIMED = {
             "last solve with a newly built equivalent model.",
             "TLC 1.8; cvxpy+CLARABEL tolerance.",
             "6.13"),
-    "C14": ("real heuristic solves of programs exported by spec/Pep.tla under recording wrappers + TLC trace validation of the "
-            "phase events and of the certificate/primal clauses after the heuristic (SolveTrace.tla)",
-            "Recording subclasses of the real wrappers (installed through PEPit's own registry) log every internal solve; "
+    "C14": ("TLC model checking of the solve protocol spec/Solve.tla (multipliers of the first solve, instance of the last; "
+            "deviation switches) + real heuristic solves of programs exported by spec/Pep.tla under recording wrappers + TLC "
+            "trace validation of every recorded wrapper call against Solve.tla (SolveProtoTrace.tla) and of the phase events and "
+            "certificate/primal clauses after the heuristic (SolveTrace.tla)",
+            "Recording subclasses of the real wrappers (installed through PEPit's own registry) log every wrapper call and every "
+            "internal solve; each recorded solve must be a behaviour of Solve.tla (corrupted copies must be rejected); "
             "TLC checks that multipliers are those of the first problem, the bound is its certificate constant, the primal "
             "value stays within tol, the final instance satisfies every row, and the trace does not increase.",
             "TLC 1.8; cvxpy+CLARABEL tolerance; logdet runs use regularisation 1e-1 (CLARABEL fails at 1e-3: inconclusive).",
             "6.14"),
     "C15": ("TLC model checking of spec/Partition.tla (get_block state machine; real coordinate partitions of Z^3 validate the "
             "spec) + replay of every call sequence on the real BlockPartition + TLC trace validation (PartitionTrace.tla)",
-            "All get_block call sequences (d <= 3, 4 held points, repeated and invalid block numbers, an intermediate solve, "
+            "All get_block call sequences (d <= 3, 4 held points and the block returned by the first call, repeated block numbers, an intermediate solve, "
             "both ways of creating a partition, a second partition of the same size) are replayed around REAL solves; TLC "
             "checks on the observed blocks and on the partition constraints that reached the solver: blocks sum to the point, repetition returns the same object, "
             "d = 1 is the identity, the constraint set is exactly the cross-block orthogonality relations, and every "
